@@ -69,6 +69,10 @@ def shapes(tier):
     S.append([(1, 4, leaf(2, 4), (1, 4, leaf(1, 4), leaf(2, 4)))])
     S.append([leaf(2, 2), (2, 3, leaf(2, 3), leaf(1, 3)), leaf(3, 4)])
     S.append([(3, 4, (2, 4, leaf(1, 4), leaf(1, 4)), leaf(2, 4)), leaf(1, 3)])
+    # type changes BETWEEN neurite types (an axon leaving a dendrite, a differently typed continuation): only the gap to a
+    # single-point SOMA is ignored, every other first segment counts (seeded change C16_c)
+    S.append([(2, 3, leaf(2, 2), leaf(2, 4))])
+    S.append([(1, 4, (2, 3, leaf(1, 3), leaf(2, 2)), leaf(2, 4)), leaf(2, 2)])
     if tier != "quick":
         S.append([(1, 3, (1, 3, leaf(1, 3), leaf(1, 3)), (1, 3, leaf(1, 3), leaf(1, 3)))])
         S.append([leaf(5, 2), leaf(4, 3), leaf(6, 4)])
